@@ -50,6 +50,9 @@ func (c *Module) Connect(conn *sqlite.Conn, args []string,
 
 	err = declare(table.SchemaString)
 	if err != nil {
+		// s3db.New has registered the table under its name: a CREATE that
+		// SQLite refuses must not keep the name taken for the whole process
+		table.Disconnect()
 		return nil, fmt.Errorf("declare: %w", err)
 	}
 
